@@ -164,7 +164,7 @@ func init() {
 			"hosts given to FlattenProperties carry a specific type name (the generic names are exercised through the typed functions)"},
 		Bound: func(tier string) string {
 			if tier == "thorough" {
-				return "single positions complete; addressing lists of length <= 4; pairs of single positions"
+				return "single positions complete; addressing lists of length <= 4"
 			}
 			return "single positions complete; addressing lists of length <= 3"
 		},
